@@ -27,6 +27,7 @@ def run(ctx):
     transitions, launches = 0, 0
     states_seen = set()
     samples = []
+    faults_seen = [0]
     with Pool(seeds=[0], init="engines.crash:worker_init") as pool:
         for variant in VARIANTS:
             vname = f"{variant['how']}{variant['code']}"
@@ -37,7 +38,7 @@ def run(ctx):
             while frontier:
                 depth += 1
                 # no-signal launches first: they give the number of traced line events from each state
-                base_items = [{"variant": variant, "state": source_state(c), "k": 0, "sig": 9} for c in frontier]
+                base_items = [{"variant": variant, "state": source_state(c), "k": 0, "sig": 9, "fault": 0} for c in frontier]
                 base = pool.map("engines.crash:launch", base_items)
                 launches += len(base)
                 items, meta = [], []
@@ -53,6 +54,18 @@ def run(ctx):
                         for sig in sigs:
                             items.append({"variant": variant, "state": S, "k": k, "sig": sig})
                             meta.append((c, k in body, b["events"][k - 1]))
+                    # the notification channel fails: the j-th call of TaskRunner into experimaestro.notifications raises - alone (the
+                    # process then ends on its own), and (thorough) together with a signal at every traced line event
+                    ncalls = len(b.get("notification_calls", []))
+                    faults_seen[0] = max(faults_seen[0], ncalls)
+                    for j in range(1, ncalls + 1):
+                        items.append({"variant": variant, "state": S, "k": 0, "sig": 9, "fault": j})
+                        meta.append((c, False, ("fault", j, b["notification_calls"][j - 1])))
+                        if not ctx.quick:
+                            for k in range(1, n + 1):
+                                for sig in sigs[:3]:
+                                    items.append({"variant": variant, "state": S, "k": k, "sig": sig, "fault": j})
+                                    meta.append((c, k in body, b["events"][k - 1]))
                     if len(samples) < 3:
                         samples.append({"variant": vname, "state": S, "traced_line_events": n, "no_signal_result": b["state"], "exit": b["exit"]})
                 outs = pool.map("engines.crash:launch", items)
@@ -65,7 +78,7 @@ def run(ctx):
                         nxt.append(cc)
                 for it, (c, in_body, ev), o in zip(items, meta, outs):
                     transitions += 1
-                    check(res, vname, ok_variant, it["state"], o, it["k"], it["sig"], (in_body, ev))
+                    check(res, vname, ok_variant, it["state"], o, it["k"], it["sig"], (in_body, ev), it.get("fault"))
                     cc = canon(o["state"])
                     if cc not in seen:
                         seen.add(cc)
@@ -80,9 +93,10 @@ def run(ctx):
         "rule": "explicit-state BFS: a state is the canonical job directory (success marker, failure marker content, body interrupted); from every "
                 "state the real generated job script is launched without signal and with SIGKILL / SIGTERM / SIGINT delivered at every traced line "
                 "event of experimaestro/run.py, the generated script and the task body; new states are explored until none appears (quick: depth 3); "
-                "three task variants (exit 0, exit 3, raise); evaluations = launches of the real TaskRunner; distinct_nontrivial = distinct (variant, state)",
+                "three task variants (exit 0, exit 3, raise); from every state also with the notification channel failing (the j-th call of TaskRunner into "
+                "experimaestro.notifications raises; thorough: combined with every signal at every line event); evaluations = launches of the real TaskRunner; distinct_nontrivial = distinct (variant, state)",
         "samples": clip_samples(samples),
-        "exhaustive": True, "transitions": transitions, "signals": [SIGNALS[s] for s in sigs],
+        "exhaustive": True, "transitions": transitions, "signals": [SIGNALS[s] for s in sigs], "notification_fault_points": faults_seen[0],
         "state_list": sorted(map(str, states_seen)),
     }
     res.assumptions = ["the pid file is written by the scheduler before the child reaches TaskRunner.run (restored by the harness before every launch)",
@@ -91,7 +105,9 @@ def run(ctx):
     return res
 
 
-def check(res, vname, ok_variant, S, o, k, sig, where):
+def check(res, vname, ok_variant, S, o, k, sig, where, fault=None):
+    if fault:
+        return check_fault(res, vname, ok_variant, S, o, k, sig, where, fault)
     S2 = o["state"]
     new_starts = S2["starts"] - S["starts"]
     new_ends = S2["ends"] - S["ends"]
@@ -124,11 +140,37 @@ def check(res, vname, ok_variant, S, o, k, sig, where):
                 res.violation(f"signal-in-body-markers:{signame}:{vname}", f"{signame} at line event {k} {ev} inside the body from {S}: markers {S2}", payload)
 
 
+def check_fault(res, vname, ok_variant, S, o, k, sig, where, fault):
+    """Clauses that do not depend on how far the run got when the notification channel failed."""
+    S2 = o["state"]
+    new_starts = S2["starts"] - S["starts"]
+    new_ends = S2["ends"] - S["ends"]
+    payload = {"variant": vname, "state": S, "k": k, "sig": sig, "fault": fault, "result": o}
+    signame = SIGNALS.get(sig, "none") if k else "none"
+    tag = f"notification fault {fault}" + (f" and {signame} at line event {k}" if k else "")
+    if S2["done"] and not (S["done"] or (new_ends >= 1 and ok_variant)):
+        res.violation(f"success-marker-without-completed-body:{vname}:fault", f"from {S} with {tag}: success marker present although the body did not run "
+                      f"to a successful end ({S2})", payload)
+    if not o["lock_free"]:
+        res.violation(f"lock-survives-process:{vname}:fault", f"from {S} with {tag}: the run lock cannot be taken after the process died", payload)
+    if S["done"] and new_starts != 0:
+        res.violation(f"body-rerun-despite-success-marker:{vname}:fault", f"from {S} with {tag}: body started {new_starts} time(s)", payload)
+    if new_starts > 1:
+        res.violation(f"relaunch-body-count:{vname}:fault", f"from {S} with {tag}: body started {new_starts} time(s)", payload)
+    if k == 0:
+        if o["exit"] < 0:
+            res.violation(f"no-signal-launch-killed:{vname}:fault", f"launch from {S} with {tag} died with signal {-o['exit']}", payload)
+        if S2["pid"]:
+            res.violation(f"pid-file-left:{vname}:fault", f"launch from {S} with {tag} ended on its own (exit {o['exit']}) and left the process-id file", payload)
+        if ok_variant and new_ends >= 1 and not S2["done"] and not S["done"]:
+            res.violation(f"successful-run-not-marked:{vname}:fault", f"launch from {S} with {tag}: the body ran to its end but there is no success marker ({S2})", payload)
+
+
 def replay(ctx, payload):
     from . import crash
     crash.worker_init()
     variant = next(v for v in VARIANTS if f"{v['how']}{v['code']}" == payload["variant"])
-    o = crash.launch({"variant": variant, "state": payload["state"], "k": payload["k"], "sig": payload["sig"] or 9})
+    o = crash.launch({"variant": variant, "state": payload["state"], "k": payload["k"], "sig": payload["sig"] or 9, "fault": payload.get("fault")})
     print("state:", payload["state"], "k:", payload["k"], "signal:", payload["sig"])
     print("result:", json.dumps(o)[:3000])
     return 0
